@@ -180,6 +180,14 @@ def fold_icmp(pred, a, b):
         return ("c", 1, 1)
     if a == b and pred in ("ne", "ult", "ugt", "slt", "sgt"):
         return ("c", 1, 0)
+    # two addresses inside the same object that differ only by constant offsets (objects do not wrap the address space)
+    if isinstance(a, tuple) and isinstance(b, tuple) and (a[0] == "p" or b[0] == "p"):
+        ra, oa, va = ptr_parts(a)
+        rb, ob, vb = ptr_parts(b)
+        if ra == rb and va == vb and ra[0] not in ("c", "null"):
+            r = {"eq": oa == ob, "ne": oa != ob, "ult": oa < ob, "ule": oa <= ob, "ugt": oa > ob, "uge": oa >= ob,
+                 "slt": oa < ob, "sle": oa <= ob, "sgt": oa > ob, "sge": oa >= ob}[pred]
+            return ("c", 1, 1 if r else 0)
     return None
 
 
